@@ -40,8 +40,10 @@ REACH_PROBES = ["burst3", "run_overlaps_event", "attr_only_update_value_watched"
                 "expr_raised", "create_event", "same_set_no_event", "dontcare_eval"]
 SHRINK_LISTS = [["ops"], ["spec", "funcs"], ["spec", "funcs", "*", "decs"]]
 
-ENT_POOL = ["pyscript.e0", "pyscript.e1", "sensor.s2", "light.l3"]
-ATTRS = ["a0", "a1"]
+# one entity id is a string prefix of another, and so is one attribute name: names must be told apart as whole
+# dotted components, not by prefix
+ENT_POOL = ["pyscript.e", "pyscript.e1", "sensor.s2", "light.l3"]
+ATTRS = ["a", "a1"]
 
 
 # ------------------------------------------------------------------ generation
